@@ -222,17 +222,17 @@ def spec(ctx):
     np_ = p + d * (v + nv) / 2.0
     rust = RUST.replace("@NV@", nv.rust()).replace("@NP@", np_.rust())
     hs = [
-        Harness("c14_update", "e2", clause="State::update == spec tree, all f32, |dt|<2^60"),
-        Harness("c14_update_zero", "e2", clause="dt = 0 is the identity on finite states (as f32 values)"),
+        Harness("c14_update", "e2", tolerant=False, clause="State::update == spec tree, all f32, |dt|<2^60"),
+        Harness("c14_update_zero", "e2", tolerant=False, clause="dt = 0 is the identity on finite states (as f32 values)"),
         Harness("c14_setters", "e1", clause="Quantity setters: all i8^2 units, accept/reject, zeroing, untouched on reject"),
         Harness("c14_setters_raw", "e1", clause="raw setters, getters, get_value, State::new round trip"),
         Harness("c14_state_new_wrong_unit", "e1", allow_fail=PANIC_EQ, clause="State::new panics on wrong unit (marker unreachable)"),
         Harness("c14_cmd_from_state", "e1", clause="Command::from(State) = lowest non-zero derivative"),
         Harness("c14_cmd_accessors", "e1", clause="Command kind/raw/quantity/accessor consistency and round trips"),
         Harness("c14_cmd_try_from_other_units", "e1", clause="Quantity->Command and Unit->kind fail for every other unit"),
-        Harness("c14_cmd_arith", "e2", clause="Command arithmetic within a kind, all operator and assign forms"),
+        Harness("c14_cmd_arith", "e2", tolerant=False, clause="Command arithmetic within a kind, all operator and assign forms"),
         Harness("c14_cmd_mismatch_panics", "e1", allow_fail=PANIC_EQ, clause="Command +/-/+=/-= across kinds panics (marker unreachable)"),
-        Harness("c14_state_arith", "e2", clause="State arithmetic component-wise, all operator and assign forms"),
+        Harness("c14_state_arith", "e2", tolerant=False, clause="State arithmetic component-wise, all operator and assign forms"),
     ]
     # (R) the spec tree is the textbook constant-acceleration law over the reals
     lem = [
